@@ -68,6 +68,11 @@ func Run(o Opts, onState func(*tla.State) error) (*Result, error) {
 	if o.Timeout == 0 {
 		o.Timeout = 10 * time.Minute
 	}
+	// The limits the checks pass were measured on an idle machine and cover TLC plus the replay that consumes its state
+	// dump (the FIFO makes TLC wait for the consumers).  On a loaded machine the same run takes several times as long; a
+	// limit that fires there is a machinery failure on a tree where nothing is wrong.  The limit only has to stop a TLC
+	// that never ends: six times the measured allowance.
+	o.Timeout *= 6
 	scratch, err := os.MkdirTemp("", "verif-tlc-")
 	if err != nil {
 		return nil, err
